@@ -217,6 +217,17 @@ CLAIMED = {
              "execution only; a little-endian host is assumed.",
         technique="Coq proofs at bit level (Z.testbit) + execution of the real Python path and the real generated program on the same frames",
         ref="7/C19"),
+    "C02": dict(
+        text="Theorems C02_ring_ops / C02_divisions / C02_remainder (QArith, for ALL operand values and every mix of integer / fixed-point operands: the "
+             "integer computation the DSL elaborates equals the exact rational result dropped to the result's representation), C02_elaboration (at every "
+             "node the elaborated expression computes it), C02_assignment (integer <-> fixed conversion drops the fraction), C02_stored (the generated code "
+             "stores it: C01's theorem instantiated); C02_refuted_negative documents the open finding. Tie: the REAL generator's code for random statements "
+             "mixing x variables, x registers, integer variables, integer and decimal constants (incl. 0.29, 0.57, 1.15) with + - * / // % runs in the "
+             "kernel-validated Coq ISA model; the stored value must equal the model's (all cases) and exact Fraction arithmetic (inside the precondition).",
+        note=TB + "Partial: the elaboration model is hand-written (tie by execution, sampled); comparisons mixing integer and fixed-point operands and "
+             "assignment from Python are not exercised here. Known finding: negative operands of the scaling divisions (unsigned DIV).",
+        technique="Coq proof over rationals (QArith) for all operand values + execution of real generated code in a kernel-validated ISA model",
+        ref="7/C02"),
 }
 
 REASONS_NOT_YET = "no check built yet in this round (planned, see DESIGN.md section 7); nothing is claimed for it"
